@@ -238,6 +238,8 @@ impl Report {
 
     /// Adds one completely enumerated space: `acc.cases` distinct inputs, `acc.calls` real-code calls.
     pub fn add_space(&mut self, name: &str, acc: &Acc, t0: Instant, note: &str) {
+        let traced = format!("{} [Trace-level logger installed]", name);
+        let name: &str = if monitor::trace_logging() && !cfg!(debug_assertions) && !name.contains("Trace") { &traced } else { name };
         self.spaces.push(Space { name: name.to_string(), cases: acc.cases, calls: acc.calls, wall_s: t0.elapsed().as_secs_f64(), exhaustive: true, note: note.to_string() });
         self.states += acc.cases;
         self.evaluations += acc.cases;
